@@ -12,7 +12,10 @@ Tie (correspondence, driver namespace `ad`): `jax.jvp` of the real functions aga
   (with respect to the data and to the query), exponential_filter (state and attenuation), horizontal_diffusion_filter
   (state and scale), Robert-Asselin, the sigma column routines (cumulative integrals, centred difference, centred /
   upwind advection, geopotential), get_temperature_implicit (dense / sparse), PrimitiveEquations._t_omega_over_sigma_sp,
-  nodal_temperature_adiabatic_tendency (dry and moist), HeldSuarezForcing.equilibrium_temperature; and the model's
+  nodal_temperature_adiabatic_tendency (dry and moist), the two pointwise kernels of the moist tendency (`ad kernel
+  var|hum`) against the temperature field that the REAL MoistPrimitiveEquations.nodal_temperature_adiabatic_tendency
+  hands to `_t_omega_over_sigma_sp` (observed by a recording subclass; Lean: C08.moistAdiabatic_eq_kernels ties the
+  kernels to the Dynamics model), HeldSuarezForcing.equilibrium_temperature; and the model's
   jvpChain / vjpChain (T8.1) on the Jacobians (jax.jacfwd) of two real column routines against jax.jvp / jax.vjp of
   their composition.
 
@@ -48,6 +51,10 @@ FD_STEP_K = 1e-5       # measured: error <= 3e-10 max|Jv|, <= 5e-10 max|f|
 FD_RTOL_K = 2e-6
 FD_FLOOR_K = 1e-8
 GRAD_TOL = 1e-11       # nested vs flat scan, checkpoint vs none: relative (measured <= 4e-16)
+# piecewise-smooth entry points: an entry whose one-sided difference quotients disagree is classed as sitting on a kink
+# and is not compared with jax.jvp.  Ceiling on the share of such entries over a run (all piecewise-smooth probes
+# together), so that the exclusion cannot silently swallow the comparison; measured: 0 of ~4300 entries (quick, seeds 0-2)
+KINK_CEILING = 0.02
 RULE = ('correspondence: node sets of 1..8 nodes (uniform, uneven, strongly uneven), queries below / at / between / '
         'beyond the nodes, random data and tangents; 1..8 sigma layers equidistant / uneven / strongly uneven; grids '
         'with_wavenumbers(4..8), both spherical-harmonics implementations; probes: grids M=5..10, 2-4 uneven layers, '
@@ -56,9 +63,20 @@ RULE = ('correspondence: node sets of 1..8 nodes (uniform, uneven, strongly unev
         'identity; distinct = distinct (operation, configuration, input) hashes')
 NOTE = ('C08 is partial: correctness of JAX\'s JVP/VJP/transpose/checkpoint rules is trusted and executed, not '
         'modelled; the finite-difference, adjointness, finiteness and scan-gradient checks are tests on the real code; '
-        'the theorems are about the dual-number model Dino.AD run on the models of C03/C13/C15/C17/C20/C04; ties '
+        'the theorems are about the dual-number model Dino.AD run on the models of C03/C13/C15/C17/C20/C04; '
+        'jax.checkpoint is MODELLED as the identity (assumption, not a theorem; under it nested = flat is C14); '
+        'derivatives with respect to the interpolation NODES (interp_hybrid_to_sigma, get_surface_pressure, '
+        'semi-Lagrangian advection) and of _dot_interp have no theorem: correspondence and probes only; ties '
         'of jnp.maximum / query exactly at a node of _dot_interp are excluded from the correspondence (JAX averages '
         'the two one-sided derivatives there)')
+
+# indexed names that are closure / helper lemmas (one-line wrappers of Mathlib lemmas or of definitions): audited for
+# axioms and statement-pinned like every indexed name, but labelled `helper-lemma` in the evidence, not `theorem`
+HELPER_LEMMAS = frozenset('Dino.C08.' + n for n in (
+    'Tracks.const Tracks.var Tracks.line Tracks.add Tracks.sub Tracks.neg Tracks.mul Tracks.smul Tracks.powN Tracks.sin '
+    'Tracks.cos Tracks.exp equilibriumTemperature_eq powN_v smoothTemperature_v maxK_v variationKernel_v humidityKernel_v '
+    'tOmega_eq checkpoint_id interp_data_weights interp_guard_ne_zero col_mul_dual innerNestedScanCk_eq '
+    'nested_derivative_eq_flat implicitTerms_dual_of').split()) | {'Dino.AD.cellSlope_padN', 'Dino.AD.coreSlope_padN'}
 
 Q_KEY = 'specific_humidity'
 QL_KEY = 'specific_cloud_liquid_water_content'
@@ -348,6 +366,43 @@ def _corr(ctx, E):
       v, t = adiabatic(meq, lambda qq: {Q_KEY: qq})
       add(f'adiabatic moist {bs} {lcs} {ph} {fvec(tref)} {dvec(G, dG)} {dvec(T, dT)} {dvec(V, dV)} {dvec(q, dq)}',
           'MoistPrimitiveEquations.nodal_temperature_adiabatic_tendency', inp, v, t)
+      # the two pointwise kernels of T8.5 (`AD.variationKernel`, `AD.humidityKernel`; Lean: `moistAdiabatic_eq_kernels`
+      # ties them to the Dynamics model) against the expressions of the REAL method: a recording subclass observes the
+      # temperature field that MoistPrimitiveEquations.nodal_temperature_adiabatic_tendency hands to its second
+      # `_t_omega_over_sigma_sp` call (variation_temperature_component + humidity_reference_component); with T_ref = 0
+      # that is the variation kernel of (T', q), with T' = 0 it is the humidity kernel of (T_ref, q)
+      rec = []
+
+      class _Rec(pe.MoistPrimitiveEquations):
+        def _t_omega_over_sigma_sp(self, temperature_field, g_term, v_dot_grad_log_sp):
+          rec.append(temperature_field)
+          return pe.MoistPrimitiveEquations._t_omega_over_sigma_sp(self, temperature_field, g_term, v_dot_grad_log_sp)
+
+      def kernel_terms(tref_):
+        eqn = _Rec(tref_, oro, csys, specs)
+
+        def f(temp, qq):
+          del rec[:]
+          aux = pe.DiagnosticState(vorticity=z, divergence=J(col(G)), temperature_variation=temp, cos_lat_u=(z, z),
+                                   sigma_dot_explicit=z[:-1], sigma_dot_full=z[:-1], cos_lat_grad_log_sp=(z[0], z[0]),
+                                   u_dot_grad_log_sp=J(col(V)), tracers={Q_KEY: qq})
+          eqn.nodal_temperature_adiabatic_tendency(aux)
+          if len(rec) != 2:
+            raise RuntimeError(f'nodal_temperature_adiabatic_tendency called _t_omega_over_sigma_sp {len(rec)} times, '
+                               'expected 2 (mean-T part, variation-and-humidity part)')
+          return rec[1]
+        return f
+      gr, hr = specs.R_vapor / specs.R, specs.Cp_vapor / specs.Cp
+      kv, kt = jax.jvp(kernel_terms(np.zeros(n)), (J(col(T)), J(col(q))), (J(col(dT)), J(col(dq))))
+      hv, ht = jax.jvp(kernel_terms(tref), (jnp.zeros((n, 1, 1)), J(col(q))), (jnp.zeros((n, 1, 1)), J(col(dq))))
+      kv, kt, hv, ht = (np.asarray(a).ravel() for a in (kv, kt, hv, ht))
+      for k in range(n):
+        add(f'kernel var {fbits(gr)} {fbits(hr)} {fbits(T[k])}:{fbits(dT[k])} {fbits(q[k])}:{fbits(dq[k])}',
+            'MoistPrimitiveEquations.nodal_temperature_adiabatic_tendency[variation_temperature_component]',
+            dict(inp, layer=k, gas_const_ratio=gr, heat_capacity_ratio=hr), [kv[k]], [kt[k]])
+        add(f'kernel hum {fbits(gr)} {fbits(hr)} {fbits(tref[k])} {fbits(q[k])}:{fbits(dq[k])}',
+            'MoistPrimitiveEquations.nodal_temperature_adiabatic_tendency[humidity_reference_component]',
+            dict(inp, layer=k, gas_const_ratio=gr, heat_capacity_ratio=hr), [hv[k]], [ht[k]])
 
   # ---- Held-Suarez equilibrium temperature ----
   units = E.scales.units
@@ -483,9 +538,11 @@ def _deriv_probe(ctx, E, key, f, x, v, inp, fd=True, kinks=False, nontrivial=Tru
           dp, dm = (a - o) / h, (o - b) / h
           ok_entries = np.abs(dp - dm) <= 1e-3 * (np.abs(dp).max(initial=0.0) + np.abs(dm).max(initial=0.0)) + 1e-300
           ctx.dist['probe-fd-kink-entries'] += int((~ok_entries).sum())
+          ctx.dist['probe-fd-piecewise-entries'] += int(ok_entries.size)
         else:
           d = (4 * d - (fp2[i] - fm2[i]) / (4 * h)) / 3
         if not ok_entries.any():
+          ctx.dist['probe-fd-leaves-all-kink'] += int(ok_entries.size > 0)    # see the ceiling obligation of `run`
           continue
         err = float(np.abs(d - t)[ok_entries].max())
         tol = rtol * float(np.abs(t).max(initial=0.0)) + floor * float(np.abs(o).max(initial=0.0)) + 1e-300
@@ -886,7 +943,16 @@ def _probes_scan(ctx, E, grid, gname, n):
 def run(ctx: common.Ctx):
   E = _Env()
   ctx.lean('DinoProofs.Properties.C08', 'C08.txt',
-           extra_files=['DinoProofs/Lemmas/AD.lean', 'Dino/AD.lean', 'Dino/ADDrv.lean'])
+           extra_files=['DinoProofs/Lemmas/AD.lean', 'DinoProofs/Lemmas/ADExtra.lean', 'DinoProofs/Lemmas/ADInterp.lean',
+                        'Dino/AD.lean', 'Dino/ADDrv.lean'])
+  indexed = [o for o in ctx.obligations if o['kind'] == 'theorem']
+  for o in indexed:
+    if o['name'] in HELPER_LEMMAS:
+      o['kind'] = 'helper-lemma'
+  nh = sum(o['kind'] == 'helper-lemma' for o in indexed)
+  ctx.notes.append(f'{nh} of the {len(indexed)} indexed names are closure / helper lemmas (kind helper-lemma: one-line '
+                   f'wrappers of Mathlib lemmas or of definitions, axiom-audited and pinned); property theorems: '
+                   f'{len(indexed) - nh}')
   _corr(ctx, E)
   for rep in range(ctx.n(1, 3)):     # one (grid, layer count) per repetition: eager primitives are compiled once each
     grid, gname, n = _run_grid(ctx, E)
@@ -897,6 +963,13 @@ def run(ctx: common.Ctx):
     _probes_scan(ctx, E, grid, gname, n)
   for name, (val, key) in sorted(ctx.__dict__.get('c08_stats', {}).items()):
     ctx.notes.append(f'measured worst {name}: {val:.3e} at {key}')
+  tot, kink, skipped = (ctx.dist[k] for k in ('probe-fd-piecewise-entries', 'probe-fd-kink-entries',
+                                               'probe-fd-leaves-all-kink'))
+  share = kink / tot if tot else 1.0
+  ctx.obligation(f'probe-coverage: share of finite-difference entries of the piecewise-smooth entry points classed as '
+                 f'kinks (excluded from the comparison with jax.jvp) <= {KINK_CEILING}, and no output leaf excluded entirely',
+                 'coverage', tot > 0 and share <= KINK_CEILING and skipped == 0,
+                 f'{kink}/{tot} entries classed as kinks (share {share:.2e}); {skipped} leaves excluded entirely')
   if not ctx.quick:
     ctx.leanchecker(['DinoProofs.Properties.C08'])
   return ctx.finish(RULE, NOTE)
